@@ -27,6 +27,7 @@ def init(max_limit=DEFAULT_MAX_LIMIT):
         return
     _inited = True
     os.environ[GUARD] = "1"
+    sys.dont_write_bytecode = True  # never leave .pyc files in the repository's working tree
     for p in (os.path.join(VERIF, "shims"), REPO, VERIF):
         if p in sys.path:
             sys.path.remove(p)
